@@ -30,10 +30,12 @@ type Op struct {
 
 // Cfg is the configuration of a case.
 type Cfg struct {
-	Workers int      `json:"workers"`
-	InCh    int      `json:"inch"`
-	Gates   []string `json:"gates"`
-	QDurMs  int      `json:"qdur"`
+	Workers int `json:"workers"`
+	// Workers2, when > 0, is the worker count set before the service is served again.
+	Workers2 int      `json:"workers2,omitempty"`
+	InCh     int      `json:"inch"`
+	Gates    []string `json:"gates"`
+	QDurMs   int      `json:"qdur"`
 }
 
 // Case is a full schedule case.
@@ -349,6 +351,10 @@ func (m *machine) serve() {
 		m.serveDoneCyc = map[int]bool{}
 	}
 	m.mu.Unlock()
+	if myCycle >= 2 && m.c.Cfg.Workers2 > 0 && prev.shutReturned {
+		// (settings may only be changed on a stopped service: Shutdown has returned)
+		m.s.SetWorkerCount(m.c.Cfg.Workers2)
+	}
 	m.s.SetOnServe(func(*res.Service) {
 		m.mu.Lock()
 		m.started = true
@@ -433,7 +439,7 @@ func (m *machine) noteSubmission(sb *Sub) {
 	defer m.mu.Unlock()
 	for id := range m.running {
 		o := m.subs[id]
-		if o.Group == sb.Group && o.Cycle == sb.Cycle && !o.Parallel && m.c.Cfg.Workers > 1 {
+		if o.Group == sb.Group && o.Cycle == sb.Cycle && !o.Parallel && (m.c.Cfg.Workers > 1 || m.c.Cfg.Workers2 > 1) {
 			m.out.Overlapable = true
 		}
 	}
